@@ -1865,7 +1865,7 @@ Box<ITV>::wrap_assign(const Variables_Set& vars,
       break;
     case OVERFLOW_UNDEFINED:
       if (!rational_quadrant_itv.contains(x_seq_v)) {
-        x_seq_v.assign(UNIVERSE);
+        x_seq_v.assign(refinement_itv);
       }
       break;
     case OVERFLOW_IMPOSSIBLE:
